@@ -90,6 +90,8 @@ def replay_chunk(args):
                 okw = {}
                 if case.get("opt") == "int96":
                     okw["times"] = "int96"
+                elif case.get("opt") == "fixed":
+                    okw["fixed_text"] = {"x": 8}          # no value of the text / bytes classes is longer than 8 bytes
                 elif case.get("opt") == "explicit":
                     okw["object_encoding"] = {"x": "bytes" if cls == "obj_bytes" else "utf8", "z": "infer"}
                 fp.write(path, df, has_nulls=has_nulls, row_group_offsets=(case["rgo"] or None), stats=stats,
@@ -183,7 +185,7 @@ def replay_chunk(args):
                             elif want == CZ.SENT:
                                 ok = pv is not None and _is_sentinel(leaf, pv)
                             else:
-                                ok = pv is not None and _logical_eq(CZ.logical_from_physical(leaf, pv),
+                                ok = pv is not None and _logical_eq(_unpad(case, CZ.logical_from_physical(leaf, pv)),
                                                                     CZ.expected_logical(cls, want))
                             if not ok:
                                 out["viol"].append(("C02", dict(sig, what="independent reader decodes a different "
@@ -212,8 +214,8 @@ def replay_chunk(args):
                         else:
                             try:
                                 unsigned = leaf.is_unsigned()
-                                dmin = CZ.logical_from_physical(leaf, PR._stat_decode(leaf, rmin, unsigned))
-                                dmax = CZ.logical_from_physical(leaf, PR._stat_decode(leaf, rmax, unsigned))
+                                dmin = _unpad(case, CZ.logical_from_physical(leaf, PR._stat_decode(leaf, rmin, unsigned)))
+                                dmax = _unpad(case, CZ.logical_from_physical(leaf, PR._stat_decode(leaf, rmax, unsigned)))
                                 emin = CZ.expected_logical(cls, min(chunk_cells))
                                 emax = CZ.expected_logical(cls, max(chunk_cells))
                                 if not (_logical_eq(dmin, emin) and _logical_eq(dmax, emax)):
@@ -300,6 +302,14 @@ def _raw_minmax(fv, gi):
     st = ch.meta.get("statistics") or {}
     return (st.get("min_value") is not None or st.get("min") is not None) and \
            (st.get("max_value") is not None or st.get("max") is not None)
+
+
+def _unpad(case, lv):
+    """fixed_text stores a value as a fixed-length string padded with NUL bytes (the option's documented representation):
+    compare without the padding"""
+    if case.get("opt") == "fixed" and lv[0] == "bytes":
+        return ("bytes", lv[1].rstrip(b"\x00"))
+    return lv
 
 
 def _is_sentinel(leaf, pv):
